@@ -2,6 +2,7 @@ import Vanguard.Lemmas.Serve
 import Vanguard.Lemmas.Frame
 import Vanguard.Lemmas.Outcome
 import Vanguard.Lemmas.ReadReach
+import Vanguard.Lemmas.Source
 /-!
   C11 — No input from client or backend can crash or wedge the transcoder.
 
@@ -27,10 +28,17 @@ import Vanguard.Lemmas.ReadReach
   well-formed writer (`twLoop_safe`, `twWrite_safe`, `ewLoop_safe`, `ewWrite_safe`).
   The same for **`responseWriter.Close`** when the handler returns (`rwClose_no_panic`,
   `finish_never_panics`): the whole response side of `ServeHTTP` is panic-free.
-  Partial: panic-freedom of the request readers (fuel of the body reader, envelope buffers) and hence
-  of the whole `serve` is not a theorem; it is covered by the
-  correspondence, where `panic=0` is part of every compared observation, and a watchdog in the
-  harness reports a call that does not return.
+  The request side: reading one message never panics (`readRequestMessage_no_panic`: a header that
+  `io.ReadFull` delivered without error has five bytes; `io.Copy` from the limited reader never runs out
+  of steps, `copyAllLimited_no_panic`), `envelopingReader.Read` never panics (`erRead_no_panic`), and
+  the loop of `transformingReader.Read` always ends (`trRead_no_panic`: every round that goes on to
+  the next message took something from the client's body, `readRequestMessage_consumes`).
+  Together: **`serve_never_panics` - for every configuration, request, client body and backend
+  script, `ServeHTTP` returns without a panic.**
+  What the theorem does not cover: it is about the model; `panic=0` is also part of every compared
+  observation of the correspondence, and a watchdog in the harness reports a call that does not
+  return.  The REST request/response translation (`Model/Rest`) and `NewTranscoder` (`Model/Config`)
+  are separate models whose panic-freedom is checked by the no-panic oracle over their streams.
 -/
 namespace Vanguard.C11
 open Vanguard
@@ -1668,5 +1676,668 @@ theorem finish_never_panics (w : World) (tb : Tables) (pl : HandlePlan) (script 
   unfold transcodeFinish
   rw [hp, if_neg Bool.false_ne_true]
   exact rwClose_no_panic w tb f.st hr
+
+/-! #### the request readers -/
+
+theorem fuel_covers_data (src : Source) : src.data.length + 4 ≤ src.fuel := by
+  unfold Source.fuel Source.data
+  rw [List.length_flatten]
+  omega
+
+/-- `io.ReadFull` that reports no error has delivered exactly what was asked for. -/
+theorem readExactly_none_len (src : Source) (k : Nat) (h : (readExactly src.fuel src k []).2.1 = none) :
+    (readExactly src.fuel src k []).1.length = k := by
+  have hf := fuel_covers_data src
+  by_cases hk : k ≤ src.data.length
+  · obtain ⟨src', heq, _, _⟩ := readExactly_enough src.fuel src k [] (by omega) hk
+    rw [heq]
+    simp only [List.nil_append, List.length_take]
+    omega
+  · obtain ⟨src', heq, _⟩ := readExactly_short src.fuel src k [] (by omega) (by omega)
+    rw [heq] at h
+    cases h
+
+/-- One `Read` of the limited reader: no panic; when it reports no error, the client's body got shorter. -/
+theorem hardLimitRead_facts (w : World) (st : St) (limit read n : Nat) (report : Bool) (hn : 0 < n) :
+    (hardLimitRead w st limit read n report).2.2.2.2 = false ∧
+    ((hardLimitRead w st limit read n report).2.1 = none →
+      (hardLimitRead w st limit read n report).2.2.2.1.src.data.length < st.src.data.length) := by
+  unfold hardLimitRead
+  split
+  · exact ⟨rfl, fun h => by cases h⟩
+  · have hn' : 0 < (if n > limit - read then limit - read + 1 else n) := by split <;> omega
+    generalize (if n > limit - read then limit - read + 1 else n) = n' at hn' ⊢
+    simp only
+    by_cases hd : st.src.data = []
+    · rw [Source.read_empty st.src n' hd]
+      simp only
+      split
+      · refine ⟨?_, fun h => by cases h⟩
+        split
+        · exact reportError_no_panic w _ _
+        · rfl
+      · exact ⟨rfl, fun h => by cases h⟩
+    · have hs := Source.read_spec st.src n' hn' hd
+      generalize st.src.read n' = rr at hs ⊢
+      obtain ⟨b, e, src'⟩ := rr
+      simp only at hs ⊢
+      obtain ⟨_, hne, _, happ, _⟩ := hs
+      have hlen : src'.data.length < st.src.data.length := by
+        rw [← happ, List.length_append]
+        have : 0 < b.length := List.length_pos_iff.mpr hne
+        omega
+      split
+      · refine ⟨?_, fun h => by cases h⟩
+        split
+        · exact reportError_no_panic w _ _
+        · rfl
+      · exact ⟨rfl, fun _ => hlen⟩
+
+/-- **`io.Copy` from the limited reader never runs out of steps**: the fuel the model gives it
+    (`Source.fuel`) is enough for any body, in any pieces. -/
+theorem copyAllLimited_no_panic (w : World) (report : Bool) (limit : Nat) : ∀ (fuel : Nat) (st : St) (read : Nat) (acc : Bytes),
+    st.src.data.length < fuel → (copyAllLimited w report limit fuel st read acc).2.2.2 = false := by
+  intro fuel
+  induction fuel with
+  | zero => intro _ _ _ h; omega
+  | succ m ih =>
+    intro st read acc hf
+    unfold copyAllLimited
+    obtain ⟨hp, hshrink⟩ := hardLimitRead_facts w st limit read (limit + 2) report (by omega)
+    generalize hardLimitRead w st limit read (limit + 2) report = r at hp hshrink ⊢
+    obtain ⟨b, e, rd, s1, p⟩ := r
+    simp only at hp hshrink ⊢
+    subst hp
+    rw [if_neg Bool.false_ne_true]
+    split
+    · exact ih _ _ _ (by have := hshrink rfl; omega)
+    · rfl
+    · rfl
+
+/-- **Reading one request message never panics**, whatever the client sends and in whatever pieces. -/
+theorem readRequestMessage_no_panic (w : World) (st : St) (report : Bool) : (readRequestMessage w st report).2.2 = false := by
+  unfold readRequestMessage
+  simp only
+  split
+  · have hlen := readExactly_none_len st.src 5
+    generalize readExactly st.src.fuel st.src 5 [] = r at hlen ⊢
+    obtain ⟨hd, e, src⟩ := r
+    simp only at hlen ⊢
+    split
+    · rfl
+    · split
+      · have fail : ∀ (s1 : St) (err : Err),
+            ((.error err, (if report = true then reportError w s1 err else (s1, false)).1,
+              (if report = true then reportError w s1 err else (s1, false)).2) : Except Err (Bytes × Bool) × St × Bool).2.2 = false := by
+          intro s1 err
+          simp only
+          split
+          · exact reportError_no_panic w s1 err
+          · rfl
+        split
+        · exact fail _ _
+        · split
+          · exact fail _ _
+          · split
+            · exact fail _ _
+            · generalize readExactly _ _ _ [] = r2
+              obtain ⟨pl, e2, src2⟩ := r2
+              simp only
+              split <;> rfl
+      · rename_i hno
+        exfalso
+        obtain ⟨f, a, b, c, d, h5⟩ := list_len5 hd (hlen rfl)
+        exact hno f a b c d h5
+  · split
+    · split
+      · exact reportError_no_panic w st _
+      · rfl
+    · have h := copyAllLimited_no_panic w report
+        (if (st.op.contentLen == -1) = true then st.op.conf.maxMsg else st.op.contentLen.toNat) st.src.fuel st 0 []
+        (by have := fuel_covers_data st.src; omega)
+      generalize copyAllLimited w report _ st.src.fuel st 0 [] = r at h ⊢
+      obtain ⟨data, e, s1, p⟩ := r
+      simp only at h ⊢
+      subst h
+      split
+      · rfl
+      · split <;> rfl
+
+theorem hardLimitRead_no_panic (w : World) (st : St) (limit read n : Nat) (report : Bool) :
+    (hardLimitRead w st limit read n report).2.2.2.2 = false := by
+  unfold hardLimitRead
+  split
+  · rfl
+  · generalize (if n > limit - read then limit - read + 1 else n) = n'
+    simp only
+    generalize st.src.read n' = rr
+    obtain ⟨b, e, src'⟩ := rr
+    simp only
+    split
+    · split
+      · exact reportError_no_panic w _ _
+      · rfl
+    · rfl
+
+theorem erCurRead_no_panic (w : World) (st : St) (cur : RCur) (n : Nat) (hc : cur ≠ .none) :
+    (erCurRead w st cur n).2.2.2.2 = false := by
+  unfold erCurRead
+  split
+  · exact absurd rfl hc
+  · rfl
+  · exact hardLimitRead_no_panic w st _ _ n true
+  · split <;> rfl
+  · split <;> rfl
+
+/-- Announcing the next message never panics, and when it succeeds there is a reader for its bytes. -/
+theorem erPrepareNext_safe (w : World) (st : St) (r : ER) :
+    (erPrepareNext w st r).2.2.2 = false ∧
+    ((erPrepareNext w st r).1 = none → (erPrepareNext w st r).2.2.1.current ≠ .none) := by
+  unfold erPrepareNext
+  simp only
+  split
+  · exact ⟨rfl, fun _ => by simp⟩
+  · split
+    · split
+      · split
+        · exact ⟨reportError_no_panic w st _, fun h => by cases h⟩
+        · (split <;> exact ⟨rfl, fun _ => by simp⟩)
+      · have h := copyAllLimited_no_panic w true (bufferedBodyLimit st.op.conf.maxMsg) st.src.fuel st 0 []
+          (by have := fuel_covers_data st.src; omega)
+        generalize copyAllLimited w true (bufferedBodyLimit st.op.conf.maxMsg) st.src.fuel st 0 [] = rr at h ⊢
+        obtain ⟨data, e, s1, p⟩ := rr
+        simp only at h ⊢
+        subst h
+        split
+        · exact ⟨rfl, fun h => by cases h⟩
+        · (split <;> exact ⟨rfl, fun _ => by simp⟩)
+    · exact ⟨rfl, fun h => by cases h⟩
+  · have hlen := readExactly_none_len st.src 5
+    generalize readExactly st.src.fuel st.src 5 [] = rr at hlen ⊢
+    obtain ⟨hd, e, src⟩ := rr
+    simp only at hlen ⊢
+    split
+    · exact ⟨rfl, fun h => by cases h⟩
+    · split
+      · split
+        · exact ⟨reportError_no_panic w _ _, fun h => by cases h⟩
+        · (split <;> exact ⟨rfl, fun _ => by simp⟩)
+      · rename_i hno
+        exfalso
+        obtain ⟨f, a, b, c, d, h5⟩ := list_len5 hd (hlen rfl)
+        exact hno f a b c d h5
+
+theorem erPhase1_no_panic (w : World) (st : St) (r : ER) (n : Nat) :
+    ∀ res, erPhase1 w st r n = .inl res → res.2.2.2.2 = false := by
+  intro res
+  unfold erPhase1
+  split
+  · intro h; cases h
+  · rename_i hc
+    have h1 := erCurRead_no_panic w st r.current n (by intro h; exact hc h)
+    generalize erCurRead w st r.current n = x at h1 ⊢
+    obtain ⟨b, e, s1, cur, p⟩ := x
+    simp only at h1 ⊢
+    subst h1
+    rw [if_neg Bool.false_ne_true]
+    split
+    · intro h; cases h; rfl
+    · split
+      · intro h; cases h
+      · intro h; cases h; rfl
+      · intro h; cases h
+
+theorem erPhase2_no_panic (w : World) (st : St) (r : ER) (n : Nat) : (erPhase2 w st r n).2.2.2.2 = false := by
+  unfold erPhase2
+  obtain ⟨hp, hcur⟩ := erPrepareNext_safe w st r
+  generalize erPrepareNext w st r = x at hp hcur ⊢
+  obtain ⟨e, s1, r1, p⟩ := x
+  simp only at hp hcur ⊢
+  subst hp
+  rw [if_neg Bool.false_ne_true]
+  split
+  · rfl
+  · split
+    · rfl
+    · generalize (if r1.envRemain > 0 then List.drop (5 - r1.envRemain) r1.env else []) = envPart
+      split
+      · have h2 := fun k => erCurRead_no_panic w s1 r1.current k (hcur rfl)
+        generalize hr : erCurRead w s1 r1.current _ = y
+        have h2' : y.2.2.2.2 = false := by rw [← hr]; exact h2 _
+        obtain ⟨b, e2, s2, cur, p2⟩ := y
+        exact h2'
+      · rfl
+
+/-- **`envelopingReader.Read` never panics**: any `Read` size, any body in any pieces, any reader state. -/
+theorem erRead_no_panic (w : World) (st : St) (r : ER) (n : Nat) : (erRead w st r n).2.2.2.2 = false := by
+  unfold erRead
+  split
+  · rfl
+  · split
+    · rfl
+    · have h1 := erPhase1_no_panic w st r n
+      generalize erPhase1 w st r n = ph at h1 ⊢
+      cases ph with
+      | inl res => exact h1 res rfl
+      | inr x =>
+        obtain ⟨s1, r1⟩ := x
+        exact erPhase2_no_panic w s1 r1 n
+
+/-! ##### the transforming reader: its loop always ends -/
+
+theorem flushHeaders_src (w : World) (st : St) : (flushHeaders w st).1.src = st.src := by
+  unfold flushHeaders
+  split
+  · rfl
+  · simp only
+    split
+    · rfl
+    · split <;> simp [writeEnd]
+
+theorem reportEnd_src (w : World) (st : St) (e : RespEnd) : (reportEnd w st e).1.src = st.src := by
+  unfold reportEnd
+  split
+  · rfl
+  · simp only
+    split
+    · split
+      · simp [writeEnd]
+      · exact flushHeaders_src w _
+    · split
+      · simp [writeEnd]
+      · exact flushHeaders_src w _
+
+theorem reportError_src (w : World) (st : St) (err : Err) : (reportError w st err).1.src = st.src := by
+  unfold reportError
+  split
+  · split
+    · rfl
+    · exact reportEnd_src w st _
+  · exact reportEnd_src w st _
+
+/-- A `Read` of the limited reader never gives the body back: what is left plus what was returned is
+    at most what was there. -/
+theorem hardLimitRead_consumes (w : World) (st : St) (limit read n : Nat) (report : Bool) :
+    (hardLimitRead w st limit read n report).2.2.2.1.src.data.length + (hardLimitRead w st limit read n report).1.length
+      ≤ st.src.data.length := by
+  unfold hardLimitRead
+  split
+  · simp
+  · generalize (if n > limit - read then limit - read + 1 else n) = n'
+    simp only
+    have key : (st.src.read n').2.2.data.length + (st.src.read n').1.length ≤ st.src.data.length := by
+      by_cases hd : st.src.data = []
+      · rw [Source.read_empty st.src n' hd]; simp [Source.data]
+      · by_cases hn : n' = 0
+        · subst hn
+          unfold Source.read
+          have hf := filter_nonempty_flatten st.src.chunks
+          split
+          · simp [Source.data]
+          · rename_i c rest hc
+            simp only [beq_self_eq_true, if_true, List.length_nil, Nat.add_zero]
+            unfold Source.data
+            simp only
+            rw [← hf, hc]
+            exact Nat.le_refl _
+        · have hs := Source.read_spec st.src n' (by omega) hd
+          simp only at hs
+          obtain ⟨_, _, _, happ, _⟩ := hs
+          rw [← happ, List.length_append]; omega
+    generalize st.src.read n' = rr at key ⊢
+    obtain ⟨b, e, src'⟩ := rr
+    simp only at key ⊢
+    split
+    · split
+      · rw [reportError_src]; exact key
+      · exact key
+    · exact key
+
+theorem copyAllLimited_consumes (w : World) (report : Bool) (limit : Nat) : ∀ (fuel : Nat) (st : St) (read : Nat) (acc : Bytes),
+    (copyAllLimited w report limit fuel st read acc).2.2.1.src.data.length + (copyAllLimited w report limit fuel st read acc).1.length
+      ≤ st.src.data.length + acc.length := by
+  intro fuel
+  induction fuel with
+  | zero => intro st read acc; simp [copyAllLimited]
+  | succ m ih =>
+    intro st read acc
+    unfold copyAllLimited
+    have h1 := hardLimitRead_consumes w st limit read (limit + 2) report
+    generalize hardLimitRead w st limit read (limit + 2) report = r at h1 ⊢
+    obtain ⟨b, e, rd, s1, p⟩ := r
+    simp only at h1 ⊢
+    split
+    · simp only [List.length_append]; omega
+    · split
+      · have := ih s1 rd (acc ++ b)
+        simp only [List.length_append] at this
+        omega
+      · simp only [List.length_append]; omega
+      · simp only [List.length_append]; omega
+
+/-- Reading a request message never gives the body back, and a message that was read took something
+    from it (an empty body is "end of file", not a message). -/
+theorem readRequestMessage_consumes (w : World) (st : St) (report : Bool) :
+    (readRequestMessage w st report).2.1.src.data.length ≤ st.src.data.length ∧
+    (∀ x, (readRequestMessage w st report).1 = .ok x →
+      (readRequestMessage w st report).2.1.src.data.length < st.src.data.length) := by
+  unfold readRequestMessage
+  simp only
+  split
+  · -- enveloped client
+    have hf := fuel_covers_data st.src
+    by_cases hk : 5 ≤ st.src.data.length
+    · obtain ⟨src', heq, hdata, _⟩ := readExactly_enough st.src.fuel st.src 5 [] (by omega) hk
+      rw [heq]
+      simp only
+      have hlen : src'.data.length + 5 = st.src.data.length := by rw [hdata, List.length_drop]; omega
+      split
+      · have fail : ∀ (err : Err),
+            (if report = true then reportError w ({ st with src := src' } : St) err else (({ st with src := src' } : St), false)).1.src.data.length
+              ≤ st.src.data.length := by
+          intro err
+          split
+          · rw [reportError_src]; show src'.data.length ≤ _; omega
+          · show src'.data.length ≤ _; omega
+        split
+        · exact ⟨fail _, fun x h => by cases h⟩
+        · split
+          · exact ⟨fail _, fun x h => by cases h⟩
+          · split
+            · exact ⟨fail _, fun x h => by cases h⟩
+            · rename_i env _ _ _
+              have hf' := fuel_covers_data src'
+              have hp : (readExactly src'.fuel src' env.length []).2.2.data.length ≤ src'.data.length := by
+                by_cases hk2 : env.length ≤ src'.data.length
+                · obtain ⟨s2, heq2, hd2, _⟩ := readExactly_enough src'.fuel src' env.length [] (by omega) hk2
+                  rw [heq2]; simp only; rw [hd2, List.length_drop]; omega
+                · obtain ⟨s2, heq2, hd2⟩ := readExactly_short src'.fuel src' env.length [] (by omega) (by omega)
+                  rw [heq2]; simp only; rw [hd2]; simp
+              generalize readExactly src'.fuel src' env.length [] = r2 at hp ⊢
+              obtain ⟨pl, e2, s2⟩ := r2
+              simp only at hp ⊢
+              split
+              · exact ⟨by show s2.data.length ≤ _; omega, fun x h => by cases h⟩
+              · exact ⟨by show s2.data.length ≤ _; omega, fun x h => by cases h⟩
+              · exact ⟨by show s2.data.length ≤ _; omega, fun _ _ => by show s2.data.length < _; omega⟩
+      · exact ⟨by show src'.data.length ≤ _; omega, fun x h => by cases h⟩
+    · obtain ⟨src', heq, hdata⟩ := readExactly_short st.src.fuel st.src 5 [] (by omega) (by omega)
+      rw [heq]
+      simp only
+      exact ⟨by show src'.data.length ≤ _; rw [hdata]; simp, fun x h => by cases h⟩
+  · split
+    · refine ⟨?_, fun x h => by cases h⟩
+      split
+      · rw [reportError_src]; exact Nat.le_refl _
+      · exact Nat.le_refl _
+    · have h := copyAllLimited_consumes w report
+        (if (st.op.contentLen == -1) = true then st.op.conf.maxMsg else st.op.contentLen.toNat) st.src.fuel st 0 []
+      generalize copyAllLimited w report _ st.src.fuel st 0 [] = r at h ⊢
+      obtain ⟨data, e, s1, p⟩ := r
+      simp only [List.length_nil, Nat.add_zero] at h ⊢
+      split
+      · exact ⟨by show s1.src.data.length ≤ _; omega, fun x h => by cases h⟩
+      · split
+        · exact ⟨by show s1.src.data.length ≤ _; omega, fun x h => by cases h⟩
+        · rename_i hne
+          have : 0 < data.length := by
+            cases data with
+            | nil => simp at hne
+            | cons a t => simp
+          exact ⟨by show s1.src.data.length ≤ _; omega, fun _ _ => by show s1.src.data.length < _; omega⟩
+
+/-- What is left for the transforming reader to do: the client's body, plus one for the message a
+    client without envelopes has sent even when its body is empty. -/
+def muR (st : St) (r : TR) : Nat := st.src.data.length + (if r.consumedFirst then 0 else 1)
+
+theorem ite_p {β γ δ ε : Type} (c : Prop) [Decidable c] (x y : β × γ × δ × ε × Bool)
+    (hx : x.2.2.2.2 = false) (hy : y.2.2.2.2 = false) : (if c then x else y).2.2.2.2 = false := by
+  split <;> assumption
+
+theorem trNext_ok (pl : HandlePlan) (st : St) (cf : Bool) (res : Except Err (Bytes × Bool)) (x : Bytes × Bool)
+    (h : trNext pl st cf res = .ok x) : res = .ok x ∨ cf = false := by
+  unfold trNext at h
+  split at h
+  · split at h
+    · rename_i hc
+      right
+      cases cf <;> simp_all
+    · cases h
+  · left; exact h
+
+/-- **`transformingReader.Read` never panics and its loop always ends**: every round that goes on to
+    the next message has taken something from the client's body (or used up the one empty message),
+    so the fuel `Read` gives the loop is never exhausted - for any `Read` size, body and pieces. -/
+theorem trRead_no_panic (w : World) (pl : HandlePlan) : ∀ (fuel : Nat) (st : St) (r : TR) (n : Nat),
+    muR st r < fuel → (trRead w pl fuel st r n).2.2.2.2 = false := by
+  intro fuel
+  induction fuel with
+  | zero => intro _ _ _ h; omega
+  | succ m ih =>
+    intro st r n hmu
+    unfold trRead
+    split
+    · rfl
+    · refine ite_p _ _ _ rfl ?_
+      simp only
+      refine ite_p _ _ _ rfl ?_
+      have hnp := readRequestMessage_no_panic w st true
+      obtain ⟨hle, hlt⟩ := readRequestMessage_consumes w st true
+      generalize readRequestMessage w st true = rr at hnp hle hlt ⊢
+      obtain ⟨res, s1, p⟩ := rr
+      simp only at hnp hle hlt ⊢
+      subst hnp
+      rw [if_neg Bool.false_ne_true]
+      split
+      · rfl
+      · rename_i data wc hnext
+        split
+        · exact reportError_no_panic w s1 _
+        · apply ih
+          unfold muR at hmu ⊢
+          simp only [if_true, Nat.add_zero]
+          rcases trNext_ok pl s1 _ res _ hnext with hok | hcf
+          · have := hlt _ hok
+            split at hmu <;> omega
+          · have hcf' : r.consumedFirst = false := by
+              revert hcf
+              generalize (if r.envRemain > 0 then List.drop (5 - r.envRemain) r.env else []) = ep
+              cases r.buffer with
+              | none => exact id
+              | some buf => simp only; split <;> exact id
+            rw [hcf'] at hmu
+            simp only [Bool.false_eq_true, if_false] at hmu
+            omega
+
+/-! #### the whole of `ServeHTTP` -/
+
+theorem Flight.read_panic (w : World) (pl : HandlePlan) (f : Flight) (n : Nat) : (f.read w pl n).2.2.panic = f.panic := by
+  unfold Flight.read
+  split
+  · rfl
+  · split
+    · rfl
+    · rename_i r _
+      have h := erRead_no_panic w f.st r n
+      generalize erRead w f.st r n = x at h ⊢
+      obtain ⟨b, e, s1, r1, p⟩ := x
+      simp only at h ⊢
+      rw [h, Bool.or_false]
+    · rename_i r _
+      have h := trRead_no_panic w pl (f.st.src.fuel + 4) f.st r n (by
+        have := fuel_covers_data f.st.src
+        unfold muR; split <;> omega)
+      generalize trRead w pl (f.st.src.fuel + 4) f.st r n = x at h ⊢
+      obtain ⟨b, e, s1, r1, p⟩ := x
+      simp only at h ⊢
+      rw [h, Bool.or_false]
+
+theorem flightReadN_panic (w : World) (pl : HandlePlan) (k buf : Nat) (capped : Bool) :
+    ∀ (fuel : Nat) (f : Flight) (got : Nat) (rd : Bytes) (re : Option Err),
+      (flightReadN w pl k buf capped fuel f got rd re).1.panic = f.panic := by
+  intro fuel
+  induction fuel with
+  | zero => intro f got rd re; simp [flightReadN]
+  | succ m ih =>
+    intro f got rd re
+    unfold flightReadN
+    split
+    · rfl
+    · have h := fun n => Flight.read_panic w pl f n
+      generalize hr : f.read w pl _ = r
+      have h' : r.2.2.panic = f.panic := by rw [← hr]; exact h _
+      obtain ⟨bs, e, f1⟩ := r
+      simp only at h' ⊢
+      split
+      · exact h'
+      · exact (ih _ _ _ _).trans h'
+
+theorem flightReadAll_panic (w : World) (pl : HandlePlan) (buf : Nat) :
+    ∀ (fuel : Nat) (f : Flight) (rd : Bytes), (flightReadAll w pl buf fuel f rd).1.panic = f.panic := by
+  intro fuel
+  induction fuel with
+  | zero => intro f rd; simp [flightReadAll]
+  | succ m ih =>
+    intro f rd
+    unfold flightReadAll
+    split
+    · rfl
+    · have h := Flight.read_panic w pl f buf
+      generalize f.read w pl buf = r at h ⊢
+      obtain ⟨bs, e, f1⟩ := r
+      simp only at h ⊢
+      split
+      · exact h
+      · exact (ih _ _).trans h
+
+theorem foldl_inv {β : Type} (P : Flight → Prop) (g : Flight × β → BOp → Flight × β) (hg : ∀ acc op, P acc.1 → P (g acc op).1) :
+    ∀ (l : List BOp) (acc : Flight × β), P acc.1 → P (l.foldl g acc).1 := by
+  intro l
+  induction l with
+  | nil => intro acc h; exact h
+  | cons x xs ih => intro acc h; simp only [List.foldl_cons]; exact ih _ (hg acc x h)
+
+/-- **No handler script makes the transcoder panic**: after any sequence of reads, header changes,
+    `WriteHeader`, `Write`, `Flush` and `Close` calls the flight has not panicked and is `Ready`. -/
+theorem runScript_no_panic (w : World) (tb : Tables) (pl : HandlePlan) (script : List BOp) (total0 : Nat) (f : Flight)
+    (h : Ready f.st) (hp : f.panic = false) :
+    Ready (runScript w tb pl script total0 f).1.st ∧ (runScript w tb pl script total0 f).1.panic = false := by
+  unfold runScript
+  refine foldl_inv (β := BackendObs) (fun f => Ready f.st ∧ f.panic = false) _ ?_ script (f, ({} : BackendObs)) ⟨h, hp⟩
+  intro acc op hacc
+  obtain ⟨f1, b1⟩ := acc
+  obtain ⟨hR, hP⟩ := hacc
+  simp only at hR hP ⊢
+  split
+  · exact ⟨hR, hP⟩
+  · split
+    · exact ⟨reach_ready (flightReadN_reach w pl _ _ true _ f1 0 _ _) hR, (flightReadN_panic w pl _ _ true _ f1 0 _ _).trans hP⟩
+    · exact ⟨reach_ready (flightReadN_reach w pl _ _ false _ f1 0 _ _) hR, (flightReadN_panic w pl _ _ false _ f1 0 _ _).trans hP⟩
+    · exact ⟨reach_ready (flightReadAll_reach w pl _ _ f1 _) hR, (flightReadAll_panic w pl _ _ f1 _).trans hP⟩
+    · exact ⟨setHdr_ready _ _ hR, hP⟩
+    · exact ⟨setHdr_ready _ _ hR, hP⟩
+    · refine ⟨rwWriteHeader_ready w tb f1.st _ hR, ?_⟩
+      simp only [hP, rwWriteHeader_no_panic, Bool.or_false]
+    · refine ⟨(rwWrite_safe w tb f1.st _ hR).2, ?_⟩
+      simp only [hP, (rwWrite_safe w tb f1.st _ hR).1, Bool.or_false]
+    · exact ⟨hR, hP⟩
+    · exact ⟨hR, hP⟩
+
+theorem opReportError_no_panic (o : Op) (k : Sink) (err : Err) : (opReportError o k err).2 = false := by
+  unfold opReportError
+  simp only
+  have hc : ∀ c, httpStatusFromRPC c ≠ none := by
+    intro c h; have := httpStatusFromRPC_isSome c; rw [h] at this; cases this
+  split
+  · rename_i hn; exact absurd hn (hc _)
+  · have hs := fun rm => addResponseHeaders_status_isSome o.cform rm k
+    generalize hr : addResponseHeaders o.cform _ k = r
+    have hs' : r.1.isSome = true := by rw [← hr]; exact hs _
+    obtain ⟨status, k1⟩ := r
+    simp only at hs' ⊢
+    cases status with
+    | none => cases hs'
+    | some sc => rfl
+
+theorem transcodePre_error_no_panic (w : World) (o : Op) (pl : HandlePlan) (st0 : St) (x : Sink × Bool)
+    (h : transcodePre w o pl st0 = .error x) : x.2 = false := by
+  unfold transcodePre at h
+  split at h
+  · simp only at h
+    split at h
+    · cases h; exact opReportError_no_panic o _ _
+    · split at h
+      · cases h; exact opReportError_no_panic o _ _
+      · cases h
+  · cases h
+
+theorem transcodePre_fresh (w : World) (o : Op) (pl : HandlePlan) (st0 st : St) (first : Option (Bytes × Bool))
+    (h : transcodePre w o pl st0 = .ok (st, first)) : st.rw = st0.rw ∧ st.sink = st0.sink := by
+  unfold transcodePre at h
+  split at h
+  · have hq := readRequestMessage_quiet w st0
+    simp only at h
+    split at h
+    · cases h
+    · split at h
+      · cases h
+      · simp only [Except.ok.injEq, Prod.mk.injEq] at h
+        rw [← h.1]; exact hq
+  · simp only [Except.ok.injEq, Prod.mk.injEq] at h
+    rw [← h.1]; exact ⟨rfl, rfl⟩
+
+theorem start_ready (st : St) (skip : Bool) (hrw : st.rw = {}) (hs : st.sink = {}) : Ready (transcodeStartState st skip) := by
+  have hg0 : Good st := by
+    have := good_init st.op st.src
+    obtain ⟨o, src, sink, rw, scratch⟩ := st
+    simp only at hrw hs
+    subst hrw hs
+    exact ⟨this.ended, this.opened, this.atMost, this.last⟩
+  refine ⟨(transcodeStartState_ev st skip hg0).1, fun hh => ?_⟩
+  have : (transcodeStartState st skip).rw.headersWritten = false := by
+    unfold transcodeStartState; simp only; split <;> simp [hrw]
+  rw [this] at hh; cases hh
+
+theorem transcodeRun_no_panic (w : World) (sc : Scenario) (o : Op) (pl : HandlePlan) (st : St)
+    (first : Option (Bytes × Bool)) (hrw : st.rw = {}) (hs : st.sink = {}) :
+    (transcodeRun w sc o pl st first).panic = false := by
+  unfold transcodeRun
+  simp only
+  have key : ∀ skip rd, (transcodeFinish w sc.tables
+      (runScript w sc.tables pl sc.script sc.src.left { st := transcodeStartState st skip, rd := rd }).1).2 = false := by
+    intro skip rd
+    obtain ⟨hR, hP⟩ := runScript_no_panic w sc.tables pl sc.script sc.src.left
+      { st := transcodeStartState st skip, rd := rd } (start_ready st skip hrw hs) rfl
+    unfold transcodeFinish
+    rw [hP, if_neg Bool.false_ne_true]
+    exact rwClose_no_panic w sc.tables _ hR
+  exact key _ _
+
+/-- **C11: `ServeHTTP` never panics.**  For every configuration, request, client body (any bytes, in any
+    pieces, ending in any way) and every backend handler script (any reads, header changes,
+    `WriteHeader`, `Write` of any bytes, `Flush`, `Close`), the model of `Transcoder.ServeHTTP` returns
+    without a panic: no index or slice out of range, no missing sink, reader or decoder, no loop that
+    runs out of steps. -/
+theorem serve_never_panics (w : World) (sc : Scenario) : (serve w sc).panic = false := by
+  unfold serve
+  simp only
+  split
+  · split
+    · rfl
+    · rfl
+  · rfl
+  · rename_i o _
+    split
+    · split <;> rfl
+    · unfold serveTranscode
+      simp only
+      have hf := fun st first => transcodePre_fresh w o (o.plan w) { op := o, src := sc.src, sink := {} } st first
+      have he := fun x => transcodePre_error_no_panic w o (o.plan w) { op := o, src := sc.src, sink := {} } x
+      generalize transcodePre w o (o.plan w) { op := o, src := sc.src, sink := {} } = r at hf he ⊢
+      cases r with
+      | error x => exact he x rfl
+      | ok x =>
+        obtain ⟨hrw, hs⟩ := hf x.1 x.2 rfl
+        exact transcodeRun_no_panic w sc o _ x.1 x.2 hrw hs
 
 end Vanguard.C11
